@@ -116,6 +116,11 @@ func (s *Server) RequestNotary(method string, args ...[]byte) (util.Uint256, err
 
 // SignNotary get a notary transaction by its hash, then send it with sign of the current node.
 func (s *Server) SignNotary(hash util.Uint256) error {
+	if !s.IsAlphabet() {
+		s.log.Info("non alphabet mode, ignore request")
+		return errors.New("non alphabet mode, ignore request")
+	}
+
 	tx, err := s.netmapClient.Morph().GetRawNotaryTransactionVerbose(hash)
 	if err != nil {
 		return err
